@@ -32,10 +32,23 @@ inductive Ctrl where
   | finishedWith (o : Out)
 deriving Inhabited
 
+/-- `closing = some e`: a GeneratorExit-class exception `e` was thrown in.  The harness builds plans as
+    nested generators (one frame per statement, joined by `yield from`), so PEP 380 turns the throw into
+    `close()` of every inner frame: a frame that yields while being closed makes its parent see
+    RuntimeError("generator ignored GeneratorExit"); a frame that ends quietly lets its parent go on
+    raising GeneratorExit. -/
 structure AState where
   ctrl : Ctrl
   stack : List Frame
+  closing : Option Exc := none
 deriving Inhabited
+
+/-- abandon the innermost try frame (it yielded while being closed) -/
+def dropTryFrame : List Frame → List Frame
+  | [] => []
+  | .handlerK _ :: st => st
+  | .finK _ :: st => st
+  | _ :: st => dropTryFrame st
 
 /-- run until the next yield or until the generator finishes -/
 def astRun : Nat → AState → AState
@@ -44,46 +57,64 @@ def astRun : Nat → AState → AState
     match a.ctrl with
     | .atYield _ => a
     | .finishedWith _ => a
-    | .exec (.msg m) => { a with ctrl := .atYield m }
+    | .exec (.msg m) =>
+      match a.closing with
+      | none => { a with ctrl := .atYield m }
+      | some _ => astRun n { a with ctrl := .unwind (.raising .runtimeError), stack := dropTryFrame a.stack }
     | .exec (.seq []) => astRun n { a with ctrl := .unwind .normal }
-    | .exec (.seq (s :: rest)) => astRun n { ctrl := .exec s, stack := .seqK rest :: a.stack }
-    | .exec (.tryS body h f) => astRun n { ctrl := .exec body, stack := .tryK h f :: a.stack }
+    | .exec (.seq (s :: rest)) => astRun n { a with ctrl := .exec s, stack := .seqK rest :: a.stack }
+    | .exec (.tryS body h f) => astRun n { a with ctrl := .exec body, stack := .tryK h f :: a.stack }
     | .exec .raise => astRun n { a with ctrl := .unwind (.raising .planError) }
-    | .exec .ret => astRun n { a with ctrl := .unwind .returning }
+    | .exec .ret => astRun n { a with ctrl := .unwind .normal }   -- `return` ends that statement's own frame only
     | .unwind c =>
       match a.stack with
       | [] =>
-        match c with
-        | .normal | .returning => { a with ctrl := .finishedWith .ret }
-        | .raising e =>
+        match c, a.closing with
+        | .normal, some e0 | .returning, some e0 => { a with ctrl := .finishedWith (.raise e0) }
+        | .raising e, some e0 =>
+          { a with ctrl := .finishedWith (.raise (if e.isGenExit then e0 else if e == .stopIteration then .runtimeError else e)) }
+        | .normal, none | .returning, none => { a with ctrl := .finishedWith .ret }
+        | .raising e, none =>
           -- PEP 479: StopIteration escaping a generator frame becomes RuntimeError
           { a with ctrl := .finishedWith (.raise (if e == .stopIteration then .runtimeError else e)) }
       | .seqK rest :: st =>
         match c with
         | .normal =>
           match rest with
-          | [] => astRun n { ctrl := .unwind .normal, stack := st }
-          | s :: rest' => astRun n { ctrl := .exec s, stack := .seqK rest' :: st }
-        | c => astRun n { ctrl := .unwind c, stack := st }
+          | [] => astRun n { a with ctrl := .unwind .normal, stack := st }
+          | s :: rest' => astRun n { a with ctrl := .exec s, stack := .seqK rest' :: st }
+        | c => astRun n { a with ctrl := .unwind c, stack := st }
       | .tryK h f :: st =>
         match c, h with
         | .raising e, some hs =>
-          if e.isException then astRun n { ctrl := .exec hs, stack := .handlerK f :: st }
+          if e.isException then astRun n { a with ctrl := .exec hs, stack := .handlerK f :: st }
           else match f with
-            | some fs => astRun n { ctrl := .exec fs, stack := .finK c :: st }
-            | none => astRun n { ctrl := .unwind c, stack := st }
+            | some fs => astRun n { a with ctrl := .exec fs, stack := .finK c :: st }
+            | none => astRun n { a with ctrl := .unwind c, stack := st }
         | c, _ =>
           match f with
-          | some fs => astRun n { ctrl := .exec fs, stack := .finK c :: st }
-          | none => astRun n { ctrl := .unwind c, stack := st }
+          | some fs => astRun n { a with ctrl := .exec fs, stack := .finK c :: st }
+          | none => astRun n { a with ctrl := .unwind c, stack := st }
       | .handlerK f :: st =>
         match f with
-        | some fs => astRun n { ctrl := .exec fs, stack := .finK c :: st }
-        | none => astRun n { ctrl := .unwind c, stack := st }
+        | some fs => astRun n { a with ctrl := .exec fs, stack := .finK c :: st }
+        | none =>
+          let c' := match a.closing, c with
+            | some _, .normal => Compl.raising .genExit
+            | some _, .returning => Compl.raising .genExit
+            | _, c => c
+          astRun n { a with ctrl := .unwind c', stack := st }
       | .finK after :: st =>
         match c with
-        | .normal => astRun n { ctrl := .unwind after, stack := st }
-        | c => astRun n { ctrl := .unwind c, stack := st }     -- a new completion replaces the pending one
+        | .normal =>
+          -- the finally block ended quietly: the pending completion continues; while closing, a try frame
+          -- that ends without an exception makes its parent re-raise GeneratorExit
+          let after' := match a.closing, after with
+            | some _, .normal => Compl.raising .genExit
+            | some _, .returning => Compl.raising .genExit
+            | _, c => c
+          astRun n { a with ctrl := .unwind after', stack := st }
+        | c => astRun n { a with ctrl := .unwind c, stack := st }     -- a new completion replaces the pending one
 
 def Stmt.size : Stmt → Nat
   | .msg _ => 1
@@ -97,7 +128,7 @@ def astFeed (fuel : Nat) (a : AState) (inp : Inp) : AState :=
   | .atYield _ =>
     match inp with
     | .send _ => astRun fuel { a with ctrl := .unwind .normal }
-    | .throw e => astRun fuel { a with ctrl := .unwind (.raising e) }
+    | .throw e => astRun fuel { a with ctrl := .unwind (.raising e), closing := if e.isGenExit then some e else none }
   | _ => a
 
 /-- the behaviour function of the generator made from a plan AST -/
@@ -107,7 +138,7 @@ def astBeh (p : Stmt) : Beh := fun hist =>
   | [] => .ret
   | _first :: rest =>
     -- the first input is `next()`: start the body
-    let a0 := astRun fuel { ctrl := .exec p, stack := [] }
+    let a0 : AState := astRun fuel { ctrl := .exec p, stack := [] }
     let a := rest.foldl (astFeed fuel) a0
     match a.ctrl with
     | .atYield m => .yld m
